@@ -54,6 +54,15 @@ def run(prop, tier, replay=None):
         trace, sidep = scratch.path("hostile.ndjson"), scratch.path("side.jsonl")
         other = collections.Counter()
         other_fail = []
+        if replay and json.load(open(replay)).get("replay_driver") == "proxy":
+            from . import proxy as PX
+            rp = json.load(open(replay))
+            pv, ncalls = PX.hang_violations(prop, tier, scratch, harness, rp.get("seed", seed), only_cases=rp["cases"])
+            for key, v in sorted(pv.items(), key=str):
+                path = C.write_replay(prop, "proxy-%d" % (abs(hash(str(key))) % 100000), v)
+                print("VIOLATION property=%s replay=%s  (%s; +%d similar)" % (prop, path, v["what"], v["more"]))
+            print("C09 replay: proxied calls=%d, violations=%d" % (ncalls, len(pv)))
+            return 1 if pv else 0
         if replay:
             rp = json.load(open(replay))
             design = dict(states=0, transitions=0, neg_guards=0)
@@ -147,6 +156,16 @@ def run(prop, tier, replay=None):
                 for f in r["failed"]:
                     if f[2] == "Crash":
                         other_fail.append(("rpc", r["_shard"], f[0], f[1], f[2]))
+            # ---- the proxy path: a call through RegisterConn must end when the direct call ends
+            from . import proxy as PX
+            pv, ncalls = PX.hang_violations(prop, tier, scratch, harness, seed)
+            other["proxied_calls"] = ncalls
+            for key, v in pv.items():
+                kf = C.match_finding(findings, prop, v["signature"])
+                if kf:
+                    known[kf["id"]] += 1
+                    continue
+                viol[("proxy",) + key] = v
             for src, sh, case, line, formula in other_fail:
                 ev = json.loads(open(sh).read().splitlines()[line - 1])
                 sig = dict(module=src, formula=formula, crash=str(ev.get("crash") or ev.get("panic") or "")[:60])
